@@ -19,6 +19,7 @@ import EEM.Gen.Guards
 import EEM.Model.Dst
 import EEM.Model.Serial
 import EEM.Model.History
+import EEM.Model.HourlyPrep
 
 open EEM EEM.Proto EEM.Model
 
@@ -504,6 +505,30 @@ def opClusters (args : List String) : String :=
     | _, _, _ => "bad-op"
   | _ => "bad-op"
 
+open EEM.Model.HourlyPrep in
+/-- `hprep <electric 0/1> <first> <last> <t:v>...` (input order; `-` = NaN): per output row
+F = filled and flagged, P = supplied and present, M = missing -/
+def opHPrep (args : List String) : String :=
+  match args with
+  | el :: first :: last :: rows =>
+    let pr := fun (x : String) => match x.splitOn ":" with
+      | [t, v] => do
+        let t ← parseInt t
+        let v ← (if v == "-" then some none else (parseFloat v).map some)
+        pure (t, v)
+      | _ => none
+    match parseBool01 el, parseInt first, parseInt last, rows.mapM pr with
+    | some el, some first, some last, some rows =>
+      let rows := dedupe rows
+      let idx := hourlyRange first last
+      let col := reindex rows idx
+      let col := if el then zeroToMissing (fun (v : Float) => v == 0.0) col else col
+      let out := interpolateCol [] (fun _ => none) col
+      let fl := flags col out
+      "ok " ++ String.ofList ((fl.zip out).map fun (f, o) => if f then 'F' else if o.isSome then 'P' else 'M')
+    | _, _, _, _ => "bad-op"
+  | _ => "bad-op"
+
 def step (line : String) : String :=
   match words line with
   | "submodel" :: args => opPredictSubmodel args
@@ -534,6 +559,7 @@ def step (line : String) : String :=
   | "dst" :: args => opDst args
   | "doc" :: args => opDoc args
   | "clusters" :: args => opClusters args
+  | "hprep" :: args => opHPrep args
   | _ => "bad-op"
 
 partial def loop (h : IO.FS.Stream) (out : IO.FS.Stream) : IO Unit := do
